@@ -10,7 +10,7 @@ NOT_APPLICABLE = {
     "C04": "purely numerical fidelity (SNR, band energy, delay by correlation); nothing for a TLA+ specification to decide; the lookahead getter is covered under C11 (DESIGN 6.1)",
 }
 # checks the coordinator has reviewed and released (a check file that exists but is not listed is work in progress)
-RELEASED = ["C01", "C02", "C05", "C06", "C07", "C08", "C09", "C10", "C11", "C14", "C15", "C16", "C17", "C18", "C19", "C20"]
+RELEASED = ["C01", "C02", "C05", "C06", "C07", "C08", "C09", "C10", "C11", "C12", "C13", "C14", "C15", "C16", "C17", "C18", "C19", "C20"]
 PENDING = "check not built yet in this round (see DESIGN section 10 for the build order)"
 
 
